@@ -38,3 +38,12 @@ Theorem C08_symbolic_partials : forall (F : fieldType) (D : derivation F) (e : f
   D (feval (FieldOps F) e t vars) = \sum_(j < size vars) feval (FieldOps F) (dfexp j e) t vars * D (nth 0 vars j).
 Proof. exact dfexp_correct. Qed.
 Print Assumptions C08_symbolic_partials.
+
+(* ---- xitorch/_utils/misc.py:TensorNonTensorSeparator as translated from /repo on this run (Gen/PyMisc.v): for EVERY
+   parameter list the split followed by reconstruct_params is the identity (also with the default non-tensor part),
+   new tensor arguments land at the tensor positions in order, a wrong number of arguments is rejected.  Statement:
+   Proofs/PySeparatorProofs.v, translated_separator_statement. ---- *)
+From XV Require Proofs.PySeparatorProofs.
+Theorem C08_translated_separator_roundtrip : PySeparatorProofs.translated_separator_statement.
+Proof. exact PySeparatorProofs.translated_separator. Qed.
+Print Assumptions C08_translated_separator_roundtrip.
